@@ -1,18 +1,29 @@
 ------------------------------ MODULE TraceC08 ------------------------------
-(* Code -> spec for C08: histories (spec behaviours of Typegraph.tla: mutators and queries    *)
-(* interleaved) were executed on one long-lived cfg.Program.  Each record carries the        *)
-(* operation, the projected real graph after it, and for queries the long-lived answer r and  *)
-(* the answer rr of a replica rebuilt from scratch to the same state.                         *)
+(* Code -> spec for C08: histories (spec behaviours of Typegraph.tla / TypegraphEpoch.tla:   *)
+(* mutators and queries interleaved) were executed on one long-lived cfg.Program.  Each       *)
+(* record carries the operation, the projected real graph after it, and for queries the       *)
+(* long-lived answer r and the answer rr of a replica rebuilt from scratch to the same state. *)
 (* The spec state is advanced by Typegraph's own actions.  Verdicts (BAD lines):              *)
 (*   fresh : r # rr                      (C08: answer of a freshly built copy)               *)
 (*   flip  : same query, no mutation in between, different answer                             *)
 (*   ref   : on an acyclic unconditioned graph r # SolverRef (C07 oracle on the real graph)   *)
+(* A BAD line also carries what the spec knows about the failing query's *cache epoch* (the   *)
+(* stretch since the last node/edge creation, see TypegraphEpoch.tla):                        *)
+(*   cyc     : the spec's graph (advanced by the spec's own actions) is cyclic - the           *)
+(*             discriminator of the known findings on cyclic graphs                           *)
+(*   muts    : mutator kinds of the latest mutator block before the query                     *)
+(*   renewed : a new solver instance was observed since that block started (a stale answer    *)
+(*             then comes from state that outlives the solver)                                *)
+(*   pc      : nodes m on a backward path of this very query that were walked by an identical *)
+(*             earlier query while unconditioned and got a condition (None -> binding)        *)
+(*             afterwards, with no node/edge created since (the path-cond shape)              *)
+(* COV lines (coverage, for the vacuity guards): a query with pc # {} was judged.             *)
 (* DIV lines (informational): the spec state differs from the projected real graph.           *)
 EXTENDS Typegraph, IOUtils, TLCExt
 
 Cases == JsonDeserialize(IOEnv.TRACE_FILE)
 
-VARIABLES i, k, asked
+VARIABLES i, k, asked, memo, ep
 ToSet(s) == {s[x] : x \in DOMAIN s}
 
 GraphOfObs(o) ==
@@ -35,7 +46,39 @@ Apply(o) ==
     [] o.op = "Query" -> Query(o.n, ToSet(o.G))
     [] o.op = "End" -> End
 
-TInit == Init /\ i = 1 /\ k = 0 /\ asked = <<>> /\ TLCSet(1, FALSE)
+(* memo: SolverRef and the path relation of the real graph, computed once per graph (the      *)
+(* graph cannot change between two consecutive queries) instead of once per query.           *)
+NoMemo == [set |-> FALSE, g |-> 0, plain |-> FALSE, S |-> {}, R |-> {}]
+MemoFor(g) ==
+  LET plain == Acyclic(g) /\ ~HasCond(g) IN
+  [set |-> TRUE, g |-> g, plain |-> plain,
+   S |-> IF plain THEN Explainable(g, FALSE) ELSE {}, R |-> PathRel(g)]
+
+(* epoch bookkeeping: walk = <<n, G, m>>: query (n, G) was asked while the unconditioned node *)
+(* m lay strictly behind n on a backward path to an origin of a goal; stale = those whose m   *)
+(* was conditioned since; both forgotten when a node or an edge is created.                   *)
+NoEpoch == [walk |-> {}, stale |-> {}, muts |-> {}, nsq |-> 0, afterq |-> FALSE]
+Topological == {"NewCFGNode", "ConnectNew", "ConnectTo"}
+Between(g, R, n, G) ==
+  {m \in GNodes(g) \ {n} :
+     /\ g.cond[m] = 0 /\ <<m, n>> \in R
+     /\ \E o \in g.origins : o.b \in G /\ o.n # m /\ <<o.n, m>> \in R}
+
+EpochAfter(o, m2) ==
+  IF o.op = "End" THEN ep
+  ELSE IF o.op = "Query"
+    THEN [ep EXCEPT !.afterq = TRUE,
+                    !.walk = @ \cup {<<o.n, ToSet(o.G), m>> : m \in Between(m2.g, m2.R, o.n, ToSet(o.G))}]
+  ELSE LET e1 == [ep EXCEPT !.afterq = FALSE,
+                            !.muts = IF ep.afterq \/ k = 0 THEN {o.op} ELSE @ \cup {o.op},
+                            !.nsq = IF ep.afterq THEN Cases[i].obs[k].ns ELSE @] IN
+       IF o.op \in Topological THEN [e1 EXCEPT !.walk = {}, !.stale = {}]
+       ELSE IF o.op = "SetCondition" /\ o.c # 0 /\ cond[o.n] = 0
+         THEN [e1 EXCEPT !.stale = @ \cup {t \in ep.walk : t[3] = o.n}]
+       ELSE e1
+
+TInit == Init /\ i = 1 /\ k = 0 /\ asked = <<>> /\ memo = NoMemo /\ ep = NoEpoch
+         /\ TLCSet(1, FALSE)
 
 Step ==
   /\ i <= Len(Cases) /\ k < Len(Cases[i].ops)
@@ -44,11 +87,15 @@ Step ==
        /\ asked' = IF o.op = "Query"
                      THEN Append(asked, <<o.n, ToSet(o.G), Cases[i].obs[k + 1].r>>)
                      ELSE <<>>
+       /\ memo' = IF o.op # "Query" THEN memo
+                  ELSE LET g == GraphOfObs(Cases[i].obs[k + 1].g) IN
+                       IF memo.set /\ memo.g = g THEN memo ELSE MemoFor(g)
+       /\ ep' = EpochAfter(o, memo')
   /\ k' = k + 1 /\ i' = i
 
 NextCase ==
   /\ i <= Len(Cases) /\ k = Len(Cases[i].ops)
-  /\ i' = i + 1 /\ k' = 0 /\ asked' = <<>>
+  /\ i' = i + 1 /\ k' = 0 /\ asked' = <<>> /\ memo' = NoMemo /\ ep' = NoEpoch
   /\ nn' = 0 /\ edges' = {} /\ cond' = <<>> /\ bvar' = <<>> /\ bdata' = <<>>
   /\ origins' = {} /\ nv' = 0 /\ hist' = <<>>
   /\ (i' > Len(Cases) => TLCSet(1, TRUE))
@@ -66,15 +113,26 @@ Fails ==
                 flip == IF \E x \in DOMAIN asked : asked[x][1] = o.n /\ asked[x][2] = G
                                                    /\ asked[x][3] # ob.r
                           THEN {"flip"} ELSE {}
-                ref == IF Acyclic(g) /\ ~HasCond(g) /\ ob.r # (<<o.n, G>> \in Explainable(g, FALSE))
+                ref == IF memo.plain /\ ob.r # (<<o.n, G>> \in memo.S)   \* memo.g = g here
                          THEN {"ref"} ELSE {}
             IN fresh \cup flip \cup ref
+
+(* the path-cond shape at the query just judged *)
+PathCond ==
+  IF i > Len(Cases) \/ k = 0 THEN {}
+  ELSE LET o == Cases[i].ops[k] IN
+       IF o.op # "Query" THEN {}
+       ELSE {t[3] : t \in {s \in ep.stale : s[1] = o.n /\ s[2] = ToSet(o.G)}}
 
 Conforms ==
   (i <= Len(Cases) /\ k >= 1) => SpecGraph = GraphOfObs(Cases[i].obs[k].g)
 
 Ok ==
-  /\ LET f == Fails IN f = {} \/ PrintT(<<"BAD", ToJson([i |-> i, k |-> k, fails |-> f])>>)
+  /\ LET f == Fails IN
+       f = {} \/ PrintT(<<"BAD", ToJson([i |-> i, k |-> k, fails |-> f, pc |-> PathCond,
+                                         muts |-> ep.muts, cyc |-> ~Acyclic(SpecGraph),
+                                         renewed |-> Cases[i].obs[k].ns > ep.nsq])>>)
+  /\ LET pc == PathCond IN pc = {} \/ PrintT(<<"COV", ToJson([i |-> i, k |-> k, m |-> pc])>>)
   /\ Conforms \/ PrintT(<<"DIV", ToJson([i |-> i, k |-> k])>>)
 
 Done == TLCGet(1)
